@@ -63,7 +63,7 @@ def stepDen (root : Node) (strict : Bool) (s : Step) (el : Pos) : Except Err (Li
   | .slice a b c => .ok ((pySlice n.kids.length a b (Step.stride c)).map (fun i => el ++ [i]))
 
 /-- apply `f` to every element in order and concatenate; the first error wins -/
-def flatMapM (f : Pos → Except Err (List Pos)) : List Pos → Except Err (List Pos)
+def flatMapM {α β : Type} (f : α → Except Err (List β)) : List α → Except Err (List β)
   | [] => .ok []
   | x :: xs =>
     match f x with
@@ -82,6 +82,22 @@ def denoteSteps (root : Node) (strict : Bool) : List Step → List Pos → Excep
 
 def denote (p : Path) (root : Node) (el : Pos) (strict : Bool) : Except Err (List Pos) :=
   denoteSteps root strict p.steps [if p.top then [] else el]
+
+/-- The same reading on operation lists (what `test_tokenize` documents as the compiled form of
+    a path): depth-first, one element at a time; a slice continues with each selected child in
+    turn.  `evalOps_denotes` shows the FIFO work list of the code computes exactly this. -/
+def denOps (root : Node) (strict : Bool) : List Op → Pos → Except Err (List Pos)
+  | [], el => .ok [el]
+  | .top :: r, _ => denOps root strict r []
+  | .up :: r, el => denOps root strict r el.dropLast
+  | .here :: r, el => denOps root strict r el
+  | .name d :: r, el =>
+    match indexAt root el d with
+    | some i => denOps root strict r (el ++ [i])
+    | none => if strict then .error .lookup else .ok []
+  | .slice a b c :: r, el =>
+    if c == some 0 then .error .value
+    else flatMapM (denOps root strict r) ((pySlice (kidsAt root el).length a b c).map (fun i => el ++ [i]))
 
 /-- the `single=` table of `find` -/
 def singleOf (strict : Bool) (r : Except Err (List Pos)) : FindRes :=
